@@ -66,7 +66,16 @@ impl<C: GCWorkContext> GCWork<C::VM> for Prepare<C> {
             mmtk.scheduler.work_buckets[WorkBucketStage::Prepare].bulk_add(prepare_mutator_packets);
         }
 
+        #[cfg(mmtk_verif)]
+        let mut verif_target = 0usize;
         for w in &mmtk.scheduler.worker_group.workers_shared {
+            #[cfg(mmtk_verif)]
+            {
+                crate::verif::emit(|| {
+                    format!("\"ev\":\"DesignatedPush\",\"target\":{},\"type\":\"PrepareCollector\"", verif_target)
+                });
+                verif_target += 1;
+            }
             let result = w.designated_work.push(Box::new(PrepareCollector));
             debug_assert!(result.is_ok());
         }
@@ -144,7 +153,16 @@ impl<C: GCWorkContext + 'static> GCWork<C::VM> for Release<C> {
         );
         mmtk.scheduler.work_buckets[WorkBucketStage::Release].bulk_add(release_mutator_packets);
 
+        #[cfg(mmtk_verif)]
+        let mut verif_target = 0usize;
         for w in &mmtk.scheduler.worker_group.workers_shared {
+            #[cfg(mmtk_verif)]
+            {
+                crate::verif::emit(|| {
+                    format!("\"ev\":\"DesignatedPush\",\"target\":{},\"type\":\"ReleaseCollector\"", verif_target)
+                });
+                verif_target += 1;
+            }
             let result = w.designated_work.push(Box::new(ReleaseCollector));
             debug_assert!(result.is_ok());
         }
